@@ -9,6 +9,7 @@ import CSD.Model.RG
 import CSD.Model.RGImage
 import CSD.Model.RPDAC
 import CSD.Model.HashRP
+import CSD.Model.RPDACImage
 import CSD.Driver.Util
 
 namespace CSD.Driver
@@ -331,6 +332,37 @@ def wtLine (syms : String) : String :=
   let j := fun (l : List Nat) => if l.isEmpty then "-" else String.join (l.map fun x => toString x ++ ",")
   s!"WT n={n} acc={joinNat seq} rk={j rk} sl={j sl}"
 
+
+/-- The saved image of a real StringDictionaryRPDAC: the model loader must consume exactly the image, the
+model writer must reproduce it byte for byte from the parsed fields, and the parsed counters, rule table and
+array sizes must be those of the object (`CSD.RPDACImg.load_save`). -/
+def checkRpdacImg (img el ml t mc rules : String) : String :=
+  let nat (s : String) := s.toNat?.getD 0
+  let bytes := unhex img
+  match RPDACImg.load 3 124 (bytes ++ [0x55, 0xaa]) with
+  | none => "V model-loader-refuses-the-image"
+  | some (d, rest) =>
+    if rest != [0x55, 0xaa] then "V loader-does-not-consume-exactly-the-image" else
+    if RPDACImg.save 3 d != bytes then "V model-save-differs-from-the-image" else
+    if d.elements != nat el then "V elements-differ" else
+    if d.maxlength != nat ml then "V maxlength-differs" else
+    if d.rp.terminals != nat t || d.rp.maxchar != nat mc then "V grammar-header-differs" else
+    let rl := (splitComma rules).map fun e =>
+      match e.splitOn ":" with
+      | [a, b] => (nat a, nat b)
+      | _ => (0, 0)
+    if d.rp.rules != rl.length then "V rule-count-differs" else
+    if !((List.range rl.length).all fun k =>
+          (d.rp.G.get (2 * k)).map (·.toNat) == some (rl.getD k (0, 0)).1 &&
+          (d.rp.G.get (2 * k + 1)).map (·.toNat) == some (rl.getD k (0, 0)).2) then "V rule-table-differs" else
+    -- the hypotheses of `load_save` on the parsed object
+    if !(d.rp.G.data.length == LogSeq.numWords d.rp.G.numbits d.rp.G.numentries) then "V rule-table-word-count" else
+    let c := d.rp.cdac
+    if !(c.levelsIndex.length == c.nLevels + 1 && c.levels.length == c.tamCode / 32 + 1 && c.rankLevels.length == c.nLevels) then
+      "V dac-array-lengths" else
+    if c.listLength != nat el then "V dac-list-length-differs-from-elements" else
+    "V ok"
+
 def runCheckStreams (c : Case) (emit : Nat → String → IO Unit) : IO Unit := do
   let mut k := 0
   for op in c.ops do
@@ -343,6 +375,7 @@ def runCheckStreams (c : Case) (emit : Nat → String → IO Unit) : IO Unit := 
     | ["hfchk", strs, qs, hs, ts, occ, t, mc, rules, cls, offs, loc, abs] =>
       emit k (checkHrpf strs qs hs ts occ t mc rules cls offs loc abs)
     | ["rdskip"] => emit k "V ok"
+    | ["richk", img, el, ml, t, mc, rules] => emit k (checkRpdacImg img el ml t mc rules)
     | "bv" :: impl :: par :: n :: h :: _ => emit k (bvLine impl (par.toNat?.getD 0) (n.toNat?.getD 0) h)
     | "bvh" :: _ :: _ :: n :: h :: _ =>
       -- long vectors: the harness checks every select and a grid of rank/access against the plain definitions
